@@ -229,6 +229,8 @@ def execute(sc: dict) -> dict:
         probes["c14.reconnection_dead_on_arrival"] = 1
     prev_cut = None
     for l in links[1:]:
+        if l.t_accept + lat + 0.05 >= sc["end"]:
+            continue  # established in the run's last instants: the run ends before its first frames could reach the console
         rx = [e for e in w.console.rx if e["link"] == l.id and e["t"] <= l.t_accept + lat + 0.05]
         kinds = [e["reading"]["kind"] for e in rx]
         if l.server_closed or (l.client_closed and not rx and l is not links[-1]):
